@@ -179,3 +179,57 @@ func (s *Sched) reserveIDs(n uint64) uint64 {
 	s.mu.Unlock()
 	return base
 }
+
+// Group spawns simulated goroutines and waits for them (harness helper).
+type Group struct {
+	n int
+	q WaitQ
+}
+
+// Go starts f as a named simulated goroutine tracked by the group.
+func (g *Group) Go(name string, f func()) {
+	g.n++
+	Go(name, func() {
+		defer func() {
+			g.n--
+			if g.n == 0 {
+				g.q.WakeAll()
+			}
+		}()
+		f()
+	})
+}
+
+// Wait parks until every goroutine of the group has returned.
+func (g *Group) Wait() {
+	for g.n > 0 {
+		g.q.Park()
+	}
+}
+
+// WaitTimeout is Wait with a simulated-time limit; reports whether all returned.
+func (g *Group) WaitTimeout(d time.Duration) bool {
+	deadline := time.Now().Add(d)
+	for g.n > 0 {
+		left := time.Until(deadline)
+		if left <= 0 {
+			return false
+		}
+		g.q.ParkTimeout(left)
+	}
+	return true
+}
+
+// Pending returns the number of goroutines of the group still running.
+func (g *Group) Pending() int { return g.n }
+
+// Seq returns the number of scheduler steps so far: a global event sequence
+// number usable to stamp invoke/return events of recorded histories.
+func Seq() uint64 {
+	s := active.Load()
+	if s == nil {
+		return 0
+	}
+	s.seq++
+	return s.seq
+}
